@@ -581,6 +581,6 @@ func c07Shrink(in []int64) [][]int64 {
 }
 
 func init() {
-	Register(&Prop{ID: "C07", Num: 7, SpecMode: "equal", Gen: c07Gen, Impl: c07Impl, Shrink: c07Shrink, Describe: c07Describe,
+	Register(&Prop{ID: "C07", Pure: true, Num: 7, SpecMode: "equal", Gen: c07Gen, Impl: c07Impl, Shrink: c07Shrink, Describe: c07Describe,
 		Rule: "parsers: (a) exhaustive: every sequence of <= 5 (thorough: 7) symbols over two 6-symbol alphabets per codec (characters; tokens building complete / truncated / out-of-range / adjacent escapes); (b) every byte value as an escape in both cases; every sequence of <= 3 escapes over the code units D7FF D800 DBFF DC00 DFFF E000 (bare, text-separated, backslash-separated) for Utf16Parse and UnicodeParse; (c) random concatenations of pieces {well-formed escape with random digit case, truncated escape, escape with one bad digit incl. the characters at the edges of the digit classes, boundary and out-of-range values (\\777, \\400, \\U00110000, \\UFFFFFFFF, \\U0000D800), lone / reversed / unpaired / doubled surrogates, a high surrogate followed by text, a backslash, a damaged or a BMP escape (directly, behind text, behind a backslash), adjacent escapes, bare backslashes and prefixes, text, raw UTF-8, raw bytes >= 0x80}, each fifth input also cut at every distance 1..W+2 from its end; entry points Parse(dst,src) (len(dst) = len(src), longer, or shorter), ParseToString(string), ParseToString([]byte), all slices with cap = len. Format and Parse∘Format: random bytes, valid UTF-8 of all four widths incl. the boundary scalars, damaged UTF-8 (surrogate encodings, overlongs, > U+10FFFF, truncated sequences), escape-looking text; all four entry points. Output compared byte for byte with the model (sub 0) and with the list-level specification (sub 1). distinct = distinct (op, variant, len(dst), argument); non-trivial = parser input of at least one escape width containing a backslash; Format / round-trip argument of at least 2 bytes"})
 }
